@@ -32,7 +32,7 @@ pub fn long_inputs(f: Family) -> Vec<Vec<u8>> {
 pub fn run(ctx: &Ctx) -> Report {
 	let refs = Refs::new(&ctx.root);
 	let mut total = Report::new();
-	total.rule = "every valid reference of RAW(n) and of the structured reference domain, plus inputs far larger than any inline buffer (17/40 segments, 600/5000-byte components, multi-byte text); per input ~50 probes: allocation count (counting global allocator, per-thread) across new / validate / each accessor / parts() / full forward and backward segment iteration / first, last, file_name, directory, parent, parent_or_empty / base / authority accessors / component constructors; pointer range of every returned slice relative to the input; order and disjointness of the five components; non-trivial = distinct valid input".into();
+	total.rule = "every valid reference of RAW(n) and of the structured reference domain, plus inputs far larger than any inline buffer (17/40 segments, 600/5000-byte components, multi-byte text); per input ~50 probes: allocation count (counting global allocator, per-thread) across new / validate / each accessor / parts() / full forward and backward segment iteration / first, last, file_name, directory, parent, parent_or_empty / base / authority accessors / component constructors; pointer range of every returned slice relative to the input; order and disjointness of the five components; the same for the borrowed data-URL view (constructors, try_from, borrowed deserialisation, media_type, encoded_data, parts); non-trivial = distinct valid input".into();
 	let rawn = ctx.pick(6usize, 7usize);
 	for f in Family::active() {
 		let fr = FamRefs::new(refs, f);
@@ -88,6 +88,20 @@ pub fn run(ctx: &Ctx) -> Report {
 			break;
 		}
 	}
+	// the borrowed data-URL view of a URI (feature `data`): parsing and reading it is parsing and
+	// reading a borrowed URI
+	if Family::active().contains(&Family::Uri) {
+		let mut r = Report::new();
+		for t in data_url_inputs() {
+			r.states += 1;
+			for v in data_url_case(&t) {
+				r.violate(v);
+			}
+			r.evaluations += 9;
+		}
+		total.count("data_url_inputs", r.states);
+		total.merge(r);
+	}
 	total.distinct_nontrivial = total.states;
 	total.transitions = total.evaluations;
 	total.traces = total.states;
@@ -96,7 +110,77 @@ pub fn run(ctx: &Ctx) -> Report {
 	total
 }
 
+pub fn data_url_inputs() -> Vec<String> {
+	let mut v: Vec<String> = ["data:,", "data:,x", "data:text/plain,hello%20world", "data:;base64,QQ==", "data:text/plain;base64,SGVsbG8=", "data:a/b,;,"].iter().map(|s| s.to_string()).collect();
+	v.push(format!("data:{},{}", "a/".repeat(300), "x".repeat(5000)));
+	v.push(format!("data:text/plain;base64,{}", "QUJD".repeat(400)));
+	v
+}
+
+/// Allocation count and pointer range of every borrowed route into and every read of a data URL.
+pub fn data_url_case(t: &str) -> Vec<Violation> {
+	use crate::engine::alloc;
+	use iref::uri::data::DataUrl;
+	let input = json!({"fam": "uri", "data_url": t});
+	let mk = |acc: &str, what: &str| Violation::new("C20", "zero-copy", what, input.clone()).feat("accessor", acc);
+	let mut out = Vec::new();
+	let js = serde_json::to_string(t).unwrap();
+	let base = t.as_ptr() as usize;
+	let inside = |s: &[u8]| s.is_empty() || (s.as_ptr() as usize >= base && s.as_ptr() as usize + s.len() <= base + t.len());
+	let r = crate::engine::guard(|| {
+		let mut res: Vec<(&'static str, u64, bool)> = Vec::with_capacity(16);
+		macro_rules! p {
+			($name:expr, $e:expr) => {{
+				let c0 = alloc::count();
+				let x = $e;
+				let c1 = alloc::count();
+				res.push(($name, c1 - c0, x));
+			}};
+		}
+		p!("DataUrl::new(&str)", DataUrl::new(t).map(|d| inside(d.as_str().as_bytes())).unwrap_or(false));
+		p!("DataUrl::new(&[u8])", DataUrl::new(t.as_bytes()).map(|d| inside(d.as_str().as_bytes())).unwrap_or(false));
+		p!("<&DataUrl>::try_from(&str)", <&DataUrl>::try_from(t).map(|d| inside(d.as_str().as_bytes())).unwrap_or(false));
+		if js.len() == t.len() + 2 {
+			p!("<&DataUrl>::deserialize", serde_json::from_str::<&DataUrl>(&js).is_ok());
+		}
+		if let Ok(d) = DataUrl::new(t) {
+			p!("media_type", d.media_type().map(|m| inside(m.as_bytes())).unwrap_or(true));
+			p!("is_base_64_encoded", {
+				let _ = d.is_base_64_encoded();
+				true
+			});
+			p!("encoded_data", inside(d.encoded_data().as_bytes()));
+			p!("parts", {
+				let q = d.parts();
+				inside(q.data.as_bytes()) && q.media_type.map(|m| inside(m.as_bytes())).unwrap_or(true)
+			});
+			p!("as_uri", inside(d.as_uri().as_bytes()));
+			if !d.is_base_64_encoded() {
+				p!("decoded_data(not base64)", d.decoded_data().map(|c| inside(&c)).unwrap_or(false));
+			}
+		}
+		res
+	});
+	match r {
+		crate::engine::Guard::Ok(res) => {
+			for (name, allocs, ok) in res {
+				if allocs != 0 {
+					out.push(mk(name, "allocates").obs(format!("{allocs} allocation(s)")).exp("no heap allocation"));
+				}
+				if !ok && name != "<&DataUrl>::deserialize" {
+					out.push(mk(name, "foreign-slice").obs("result is not a sub-slice of the input (or the route failed)").exp("a sub-slice of the caller's input"));
+				}
+			}
+		}
+		crate::engine::Guard::Panic(pm) => out.push(mk("data-url", "panic").obs(format!("panic: {pm}")).exp("no panic")),
+	}
+	out
+}
+
 pub fn replay(_ctx: &Ctx, _check: &str, input: &Value) -> Vec<Violation> {
+	if let Some(t) = input["data_url"].as_str() {
+		return data_url_case(t);
+	}
 	match super::input_family(input) {
 		Some(f) => by_family!(f, c20_replay(input)),
 		None => vec![],
